@@ -73,9 +73,14 @@ CHECKS = {
               'expectation computed from the abstract model. Each listed fault (unknown section, undefined / out-of-range block atom, '
               'duplicate atom, unbalanced braces, prefix/order contradiction, too few / too many atoms before "--", too few tokens) is '
               'injected at generated positions and must be rejected. Literal examples of the documented grammar must load. '
-              'This found and now guards F3, F11, F12, F14; F13 (SETTLE) is an open known finding.'),
+              'The same kind of model-based round trip plus fault injection covers Gromacs-style .itp files (moleculetypes, '
+              'interaction sections, #ifdef/#ifndef/#else/#endif, 17 fault kinds), backward-style .map files (multiplicity and ! '
+              'weights, from/to lists, ignored sections, read_mapping_directory over a temporary tree) and .mapping files (block and '
+              'modification mappings, shorthand / longhand block specs, from/to nodes and edges, weights, reference atoms; 15 fault '
+              'kinds). This found and now guards F3, F11, F12, F14, F28-F31; F13 (SETTLE) and F32 (documented .map example) are open '
+              'known findings.'),
         design_ref='DESIGN.md §2 C13',
-        note='Trusted: the expectation computed from the abstract model (written from doc/source/file_formats.rst and the tokenizer docstring). .itp/.map/.mapping readers: see the c13 parts list in evidence; unique block/modification names; consistent per-atom attributes.',
+        note='Trusted: the expectations computed from the abstract models (written from doc/source/file_formats.rst and the parser docstrings): pbt/c13_ffmodel.py, c13_itp.py, c13_map.py, c13_mapping.py. Unique block/modification/molecule names; consistent per-atom attributes; see ASSUMPTIONS in evidence.',
         technique='Hypothesis grammar-based generation + model-based round trip; fault injection at generated positions'),
     'C02': dict(
         category='exploration',
